@@ -88,6 +88,11 @@ def check_delegation(L, f, name, order, ty, key, en):
                 why = 'delegates with byte order %s instead of %s' % (m.group(1), order)
             elif cast_t != target:
                 why = 'reinterprets as %s, expected the unsigned type of the same width %s' % (cast_t or '?', target)
+            elif ty in ('float', 'double') and cast and cast[0].kind != 'CXXReinterpretCastExpr':
+                # for a floating-point source a static / C-style cast to an integer reference is a *value conversion*
+                # (the number truncated to an integer), not the bit pattern
+                why = 'a %s is converted with %s: that is a value conversion (1.5f -> 1), the bit pattern needs reinterpret_cast' % (
+                    ty, {'CXXStaticCastExpr': 'static_cast', 'CStyleCastExpr': 'a C-style cast'}.get(cast[0].kind, cast[0].kind))
             else:
                 ok = True
     L.check(ok, 'F5.delegation', key, f.site(), '%s must delegate to the unsigned type of the same width with the '
